@@ -388,6 +388,9 @@ class Observer:
             return
         if self.cancel_t is None:
             self.cancel_t = self.now()
+            c2 = self.scn.get("cancel2")
+            if c2 is not None:      # a second cancellation while the watcher drains / closes
+                self.loop.call_later(c2 * TICK, self.do_cancel)  # type: ignore[union-attr]
         self.mark_closing()
         self.label(["cancel"])
         wt.cancel()
@@ -556,7 +559,8 @@ def simulate(scn: dict, policy: str = "fifo", max_steps: int = 5000) -> dict:
     settings = configuration.OperatorSettings()
     settings.queueing.idle_timeout = st["idle_timeout"] * TICK
     settings.queueing.worker_limit = st.get("worker_limit")
-    settings.queueing.exit_timeout = st.get("exit_timeout", 2048) * TICK
+    et = st.get("exit_timeout", 2048)
+    settings.queueing.exit_timeout = None if et is None else et * TICK
     if st.get("batch_window") is not None:
         with warnings.catch_warnings():
             warnings.simplefilter("ignore")
